@@ -25,3 +25,21 @@ for seed, (summary, needs) in sorted(info.items()):
                 detected_by=det, detected_by_own_property=prop in det, violation_keys=keys)
     json.dump(meta, open(d + '/meta.json', 'w'), indent=1)
     print(seed, 'own' if prop in det else ('other:' + ','.join(det) if det else 'NOT DETECTED'))
+
+# refresh `detected_by` / `violation_keys` of every other recorded seed from the current matrix (rules evolve; a detection that was an accident of
+# shape may disappear, new rules add detections)
+for seed in sorted(os.listdir('/verif/seeded')):
+    mp = '/verif/seeded/%s/meta.json' % seed
+    if seed in info or not os.path.exists(mp) or seed not in mat or mat[seed].get('status') != 'ok':
+        continue
+    meta = json.load(open(mp))
+    det, keys = {}, {}
+    for pid, ks in mat[seed].get('detected', {}).items():
+        det[pid] = sorted({k.split(' | ')[0] for k in ks})
+        keys[pid] = ks[:6]
+    if det != meta.get('detected_by'):
+        print('refreshed', seed, sorted(set(meta.get('detected_by', {})) ^ set(det)))
+    meta['detected_by'] = det
+    meta['violation_keys'] = keys
+    meta['detected_by_own_property'] = meta['breaks_property'] in det
+    json.dump(meta, open(mp, 'w'), indent=1)
